@@ -38,6 +38,11 @@ class BiasedRandom(_random.Random):
         # which starves rejection/collection loops and pushes them into their fallbacks
         self._stuck_left = 0
         self._stuck_vals = (0,)
+        # 32-bit words handed out so far.  The Mersenne Twister is equidistributed in 623
+        # dimensions at 32-bit accuracy: every sequence of fewer than 624 words is produced
+        # by some generator state, i.e. a call that consumed fewer words than that saw a
+        # draw sequence some seed really produces.
+        self.words = 0
 
     def __getattr__(self, name):
         # this object stands in for the `random` *module* inside mathy_core.problems:
@@ -46,6 +51,7 @@ class BiasedRandom(_random.Random):
         return getattr(_random, name)
 
     def random(self):
+        self.words += 2
         b = self._bias.random()
         if b < self._rate:
             self.fired += 1
@@ -62,6 +68,7 @@ class BiasedRandom(_random.Random):
         return v
 
     def getrandbits(self, k):
+        self.words += (k + 31) // 32
         if self._stuck_left > 0 and k > 0:
             self._stuck_left -= 1
             self.fired += 1
@@ -85,11 +92,15 @@ class BiasedRandom(_random.Random):
         if n <= 0:
             return 0
         k = n.bit_length()
+        if self._stuck_left <= 0 and self._bias.random() < self._rate / 2:
+            # special values of the range: both ends and the middle (0 and +-1 of symmetric ranges)
+            self.words += (k + 31) // 32
+            self.fired += 1
+            return min(n - 1, max(0, self._bias.choice([0, 1, n - 1, n - 2, n // 2, n // 2 - 1, n // 2 + 1])))
         r = self.getrandbits(k)
-        tries = 0
         while r >= n:
+            self.words += (k + 31) // 32
             r = super().getrandbits(k)
-            tries += 1
         return r
 
 
@@ -184,6 +195,7 @@ class World:
             self.stream = None
             self.biased = False
         self.templates = []
+        self.last_words = 0
         self.hist = []
         self.calls = 0
         self.toggles = 0
@@ -218,6 +230,7 @@ class World:
         if self.biased:
             st["fault.biased_stream_session_call"] += 1
         before = self.stream.fired if self.stream else 0
+        words0 = self.stream.words if self.stream else 0
         try:
             with core.op_budget(OP_BUDGET_S):
                 out = fn(**kwargs)
@@ -227,6 +240,7 @@ class World:
             return fs
         except Exception as e:  # noqa
             out, exc = None, e
+        self.last_words = (self.stream.words - words0) if self.stream else 0
         if self.stream:
             fired = self.stream.fired - before
             if fired:
@@ -262,7 +276,7 @@ class World:
                 allowed = pool - len([v for v in set(ex) if (v in "xyz" if pool == 3 else v in LETTERS)])
                 if n > allowed:
                     return []
-                if self.biased:
+                if self.biased and self.last_words >= 600:
                     st["probe.retry_exhausted_under_biased_stream"] += 1
                     return []
                 return [Finding("C17", dict(key, clause="gave-up-satisfiable"),
@@ -270,7 +284,8 @@ class World:
             if name == "get_rand_term_templates" and isinstance(exc, EnvironmentError):
                 st["probe.templates_gave_up"] += 1
                 return []
-            if self.biased and "Unable to fulfill" in msg:
+            if self.biased and "Unable to fulfill" in msg and self.last_words >= 600:
+                # a long biased draw sequence may not be producible by any seed: reach only
                 st["probe.retry_exhausted_under_biased_stream"] += 1
                 return []
             return [Finding("C17", dict(key, clause="raised", exc=type(exc).__name__,
